@@ -29,6 +29,7 @@ import (
 	"os"
 	"path/filepath"
 	"sort"
+	"strconv"
 	"strings"
 )
 
@@ -99,6 +100,7 @@ type Report struct {
 	JpgoFiles  []string   `json:"jpgo_files"`
 	TypeErrors []string   `json:"type_errors"`
 	Functions  []FuncInfo `json:"functions"` // built-in functions found in the library's function table
+	LexChars   []string   `json:"lex_chars"` // every character literal in files whose name contains "lex": the lexer's alphabet
 }
 
 // FuncInfo is one entry of a map[string]functionEntry-like table: name, arity and the
@@ -577,6 +579,20 @@ func typedRewrites(fset *token.FileSet, f *ast.File, info *types.Info, ed *edito
 				// X was re-emitted verbatim: only the body is visited further
 				visit(x.Body)
 				return false
+			case *ast.BasicLit:
+				if x.Kind == token.CHAR && strings.Contains(strings.ToLower(filepath.Base(fn)), "lex") {
+					if c, err := strconv.Unquote(x.Value); err == nil {
+						seen := false
+						for _, o := range report.LexChars {
+							if o == c {
+								seen = true
+							}
+						}
+						if !seen {
+							report.LexChars = append(report.LexChars, c)
+						}
+					}
+				}
 			case *ast.CompositeLit:
 				// the built-in function table: a map literal with string keys whose values are
 				// struct literals having an "arguments" (or similar) list of type lists
